@@ -40,6 +40,15 @@ fn text_for(seed: u64, i: u64, len: usize, sel: &mut Rng) -> Vec<u8> {
     let tl = len.saturating_sub(1);
     if tl <= 8 && sel.chance(1, 3) {
         body = (0..tl).map(|k| [b' ', b'\t', b'\n', b'\r', 0x0c][(seed as usize + i as usize + k) % 5]).collect();
+    } else if tl >= 24 && sel.chance(1, 5) {
+        // texts shaped like what connectors and ORMs really send: a leading comment or hint, leading
+        // blanks, a trailing separator, trailing blanks or a trailing comment - all of it is part
+        // of the text and has to arrive
+        let pre: &[u8] = *sel.pick(&[&b"/**/"[..], b"/* c */ ", b"/*+ H(1) */ ", b"/*!40101 x */", b"-- x\n", b"# x\n", b"  ", b"\n\t", b"(", b"/* a *//* b */ "]);
+        let suf: &[u8] = *sel.pick(&[&b""[..], b";", b"; ", b" ;", b"\n", b";;", b" -- t", b"/* t */", b"\0", b" \t\r\n"]);
+        body.extend_from_slice(pre);
+        stream_fill(&mut body, seed, i, tl - pre.len() - suf.len(), true);
+        body.extend_from_slice(suf);
     } else {
         stream_fill(&mut body, seed, i, tl, true);
     }
